@@ -88,6 +88,11 @@ fn observe(r: &mut Rng, out: &mut String) {
     if r.chance(1, 2) {
         writeln!(out, "debug b0").unwrap();
     }
+    if r.chance(1, 3) {
+        // queries derived from the value's own maximal runs (exactly the run, one more on either side, ranks / selects
+        // at its ends): totality of the query paths at the places where the structure of THIS value changes
+        writeln!(out, "probe b0").unwrap();
+    }
 }
 
 pub fn gen_case(r: &mut Rng, out: &mut String) {
@@ -125,6 +130,17 @@ pub fn gen_case(r: &mut Rng, out: &mut String) {
                 writeln!(out, "insert_range b0 in:{} in:{}", s, s + n - 1).unwrap()
             }
             8 => writeln!(out, "insert_range b0 in:{} un", MAX - r.below(5000)).unwrap(),
+            9 if r.chance(1, 2) => {
+                // a dense run over one or two whole chunks, up to a chunk edge (or one value beyond / short of it), starting
+                // at or inside a chunk: queries that span several chunks then start at a container that is not the first
+                // and run past the last one
+                let k = *r.pick(&[1u64, 2, 3, 0xFFFD]);
+                let span = r.range(1, 2);
+                let s = (k << 16) + *r.pick(&[0u64, 0, 1, 65535, 4096]);
+                let e = (((k + span) << 16) - 1 + *r.pick(&[0u64, 0, 1]) - *r.pick(&[0u64, 0, 1])).min(MAX);
+                writeln!(out, "insert_range b0 in:{} in:{}", s, e).unwrap();
+                writeln!(out, "probe b0").unwrap();
+            }
             _ => writeln!(out, "push b0 {}", extreme_value(r, nkeys)).unwrap(),
         }
     }
